@@ -639,7 +639,8 @@ def rms(self):
     """
 
     # Evaluate the norm
-    sum_sq = np.sum(self._values_**2, axis=tuple(range(-self._rank_,0)))
+    sum_sq = np.sum(self._values_ * self._values_,
+                    axis=tuple(range(-self._rank_,0)))
 
     return Qube.SCALAR_CLASS(np.sqrt(sum_sq/self.isize), self._mask_)
 
